@@ -11,6 +11,7 @@ The same object is used (a) at call sites: obligations for `requires`, then one 
 from __future__ import annotations
 from dataclasses import dataclass, field
 from typing import Callable
+import re
 import z3
 from . import terms as T
 from .state import State
@@ -55,6 +56,8 @@ class Spec:
     outcomes: list = field(default_factory=list)
     assume_schemas: list = field(default_factory=list)   # quantified preconditions (global invariants) assumed by the body
     measure: z3.ArithRef | None = None                # termination measure for recursive groups
+    enums: list = field(default_factory=list)         # ghost enumerations: (RSeq const, predicate Ref -> Bool)
+    defs: list = field(default_factory=list)          # ground definitional unfoldings of fold-style spec functions (run-time monitor)
 
 
 class SpecCtx:
@@ -88,6 +91,15 @@ class SpecCtx:
 
     def measure(self, m):
         self.spec.measure = m
+
+    def enum_where(self, pred, name="enum"):
+        """ghost: an arbitrary duplicate-free enumeration of the references satisfying `pred` (set iteration order, A9).
+        The body check identifies it with the enumeration the code actually iterates over."""
+        p = T.fresh("spec_" + name, T.RSeq)
+        self.spec.enums.append((p, pred))
+        self.spec.assume_schemas.append(Schema(f"enum({p})", (T.Ref,), lambda x, p=p, pred=pred: z3.And(
+            T.Cnt(p, x) <= 1, (T.Cnt(p, x) >= 1) == pred(x))))
+        return p
 
     def fresh(self, cname_or_cls, name="new"):
         return self._alloc(cname_or_cls, name)
@@ -133,7 +145,7 @@ class OutcomeBuilder:
     def fresh(self, cname_or_cls, name="new"):
         r = self.ctx.fresh(cname_or_cls, name)
         self.o.fresh.append((r, cname_or_cls))
-        if cname_or_cls != "<container>":
+        if not (isinstance(cname_or_cls, str) and cname_or_cls == "<container>"):
             # a new instance starts without dynamic attributes and with an empty neighbor memo
             self.o.post.write_where("dyn_has", lambda a, r=r: (T.eq(a[0], r), z3.BoolVal(False)))
             self.o.post.write_where("memo_has", lambda a, r=r: (T.eq(a[0], r), z3.BoolVal(False)))
@@ -165,6 +177,7 @@ class Contract:
     is_generator: bool = False
     no_body: bool = False             # do not verify the body (trusted=True required)
     self_exact: str | None = None     # for __init__: verify the body for instances whose class is a subclass of the owner
+    shards: int = 1                   # split the discharge of this function's obligations over several worker processes
 
 
 @dataclass
@@ -184,7 +197,8 @@ class LoopInv:
     define: dict = field(default_factory=dict)      # locals defined by the invariant: name -> V
     variant: z3.ArithRef | None = None
     out: z3.ExprRef | None = None                   # generators: yielded sequence so far
-    defs: list = field(default_factory=list)        # definitional unfoldings of spec functions (assumed, never checked)
+    defs: list = field(default_factory=list)        # definitional unfoldings of spec functions (schemas; assumed, never checked)
+    ground_defs: list = field(default_factory=list)  # the same, ground
 
 
 class Registry:
@@ -227,8 +241,9 @@ def parse_params(s: str) -> list[Param]:
             kwonly = True
             continue
         default = None
-        if "=" in part:
-            part, d = part.split("=", 1)
+        m = re.search(r"(?<!<)=", part)
+        if m:
+            part, d = part[:m.start()], part[m.end():]
             default = d.strip()
         name, ty = [x.strip() for x in part.split(":", 1)]
         out.append(Param(name, ty, default, kwonly))
